@@ -13,3 +13,16 @@ package post
 //@   loop 0
 //@     invariant len(names) == len(macRoman)
 //@     invariant forall k int :: 0 <= k && k < iter ==> names[k] == macRoman[k]
+
+// post.Encode: every narrowing conversion must be lossless ("encoder"): the
+// 16-bit glyph count, the 16-bit name indices (258+k for the k-th custom
+// name) and the 8-bit Pascal string lengths.
+//@ func (info *Info) Encode() (res []byte)   props: C14 C01
+//@   encoder
+//@   requires info != nil && len(info.Names) <= 65535 && len(macRoman) == 258
+//@   modifies nothing
+//@   loop 0
+//@     invariant mac != nil && fresh(mac) && buf != nil && fresh(buf) && forall s string :: has(mac, s) ==> 0 <= mac[s] && mac[s] < 258
+//@   loop 1
+//@     invariant mac != nil && buf != nil && fresh(buf) && 0 <= numStrings && numStrings <= iter && (isnil(stringData) || fresh(stringData)) && numGlyphs == len(info.Names)
+//@     invariant forall s string :: has(mac, s) ==> 0 <= mac[s] && mac[s] < 258
